@@ -316,6 +316,28 @@ def _evaluate(rp, st):
     x = A(a["x"])
     ew = bool(a["elementwise"])
     if a["via"] == "evaluate_ln":
+        X = np.asarray(a["x"], dtype=float)
+        d = X.shape[1]
+        if not ew and X.shape[0] == (d + 1) * (d + 2) // 2:
+            # The points are the unisolvent lattice: the expected values there determine the expected log-quadratic
+            # everywhere.  Evaluate the code additionally at generic points (negative, fractional, large) and compare with
+            # the interpolated expectation, so that a deviation that is not itself log-quadratic (abs, clipping, truncation
+            # to integers, a branch on the sign of x) cannot hide behind the non-negative integer lattice.
+            G = np.array([[((-1) ** (k + j)) * (0.5 + 0.75 * k + 0.3 * j) for j in range(d)] for k in range(3)])
+            val = o.evaluate_ln(x, ew)
+            valG = o.evaluate_ln(jnp.asarray(G), ew)
+
+            def mono(P):
+                cols = [np.ones(len(P))] + [P[:, i] for i in range(d)] + [P[:, i] * P[:, j] for i in range(d) for j in range(i, d)]
+                return np.stack(cols, axis=1)
+
+            def chk(v, exp):
+                v, vG = v
+                e = np.asarray(to_float(exp["ln"]), dtype=float)            # [R, len(X)]
+                cmp_lin("return", np.asarray(v), e)
+                coef = np.linalg.solve(mono(X), e.T)                         # exact interpolation on the lattice
+                cmp_lin("return[generic points]", np.asarray(vG), (mono(G) @ coef).T)
+            return None, ("custom", (val, valG), chk)
         return None, ("ln", o.evaluate_ln(x, ew))
     if a["via"] == "evaluate":
         return None, ("exp", o.evaluate(x, ew))
